@@ -119,15 +119,16 @@ Definition bare_ok (name : list byte) : bool :=      (* a name printed without |
   match name with
   | [] => false
   | b :: r => token_first b && forallb token_byte r
-  end && negb (numeric_like (map lower name)) && negb (is_t name) && negb (is_nil_tok name) &&
-  negb (bytes_eqb name [46%N]).
-(* inl: the symbol sits inside a list that createTree renders ( *print-pretty* t) *)
+  end && negb (is_t name) && negb (is_nil_tok name) && negb (bytes_eqb name [46%N]).
+(* inl: the symbol sits inside a list that createTree renders ( *print-pretty* t).
+   A name that looks like a number is no longer a guard matter: Symbol.needPipes asks the reader's own token
+   resolution and puts such names between bars (repo_fixes C03-3). *)
 Definition sym_ok (c : pcfg) (inl : bool) (name : list byte) : bool :=
   forallb (fun b => (b <? 128)%N) name &&
   match name with
   | [] => negb inl
   | 58%N :: _ => negb (existsb need_pipe name) && bare_ok name
-  | _ => if existsb need_pipe name then forallb pipe_ok_byte name && negb inl else bare_ok name
+  | _ => if need_pipes name then forallb pipe_ok_byte name && negb inl else bare_ok name
   end.
 
 Definition float_ok (k : fkind) (txt : list byte) : bool :=
